@@ -39,7 +39,8 @@ def therm_ternary():
 
 
 def build_binary(x0=4e-3, T=723.15, gamma=0.1, site='dislocations', bins=75, minBins=50, maxBins=100,
-                 cMin=1e-10, cMax=1e-8, vratio=1.0, gbEnergy=None, adaptive=True, record=False, infinite=True):
+                 cMin=1e-10, cMax=1e-8, vratio=1.0, gbEnergy=None, adaptive=True, record=False, infinite=True,
+                 shape=None, ratio=1, atomsBeta=4, minComposition=None):
     vlib.use_repo()
     from kawin.precipitation import PrecipitateModel, VolumeParameter
     m = PrecipitateModel(phases=['AL3ZR'], elements=['ZR'])
@@ -49,9 +50,14 @@ def build_binary(x0=4e-3, T=723.15, gamma=0.1, site='dislocations', bins=75, min
     m.setInterfacialEnergy(gamma)
     a = 0.405e-9
     m.setVolumeAlpha(a ** 3, VolumeParameter.ATOMIC_VOLUME, 4)
-    m.setVolumeBeta(a ** 3 / vratio, VolumeParameter.ATOMIC_VOLUME, 4)
+    # atomsBeta != 4: same molar volume ratio, different unit-cell content (Va = atomsPerCell * Vm / N_A)
+    m.setVolumeBeta(a ** 3 / vratio * (atomsBeta / 4), VolumeParameter.ATOMIC_VOLUME, atomsBeta)
     m.setNucleationDensity(grainSize=1, dislocationDensity=1e15)
     m.setNucleationSite(site)
+    if shape is not None:
+        m.setPrecipitateShape(shape, ratio=ratio)
+    if minComposition is not None:
+        m.setConstraints(minComposition=minComposition)
     if gbEnergy is not None:
         m.setGrainBoundaryEnergy(gbEnergy)
     if not infinite:
